@@ -37,25 +37,26 @@ def table():
 BIN = {"+": 1, "-": 1, "*": 2, "/": 2}
 
 
-def num_src(z, radix=10):
+def num_src(z, radix=10, lead=0):
+    """`lead` leading zeros (after the radix prefix): they never change the value"""
     if z < 0:
-        return "-" + str(-z)
+        return "-" + "0" * lead + str(-z)
     if radix == 16:
         h = "%x" % z
         if len(h) < 2:
             h = "0" + h
-        return "0x" + h
+        return "0x" + "0" * lead + h
     if radix == 2:
-        return "0b" + bin(z)[2:]
+        return "0b" + "0" * lead + bin(z)[2:]
     if radix == 8:
-        return "0o" + oct(z)[2:]
-    return str(z)
+        return "0o" + "0" * lead + oct(z)[2:]
+    return "0" * lead + str(z)
 
 
 def expr_src(e, sp=""):
     k = e[0]
     if k == "num":
-        return num_src(e[1], e[2] if len(e) > 2 else 10)
+        return num_src(e[1], e[2] if len(e) > 2 else 10, e[3] if len(e) > 3 else 0)
     if k == "lbl":
         return e[1]
     if k == "var":
